@@ -55,6 +55,9 @@ type finding struct {
 	Case map[string]any
 }
 
+// nDagProbes: probe names used per plugin of a domain_set topology.
+const nDagProbes = 40
+
 // decoyVal is the value carried by commented-out decoy rules in loader texts.
 const decoyVal = 9999
 
@@ -656,6 +659,12 @@ func checkSet(rs *ruleSet, nProbes int, extra []string, dir string, st *stats, w
 		st.add("evaluations", evals[ti])
 		st.add("evaluations:"+t.name, evals[ti])
 	}
+	// multi-plugin topologies; their mismatches are reported only if no simpler
+	// route of this rule set already disagrees with the reference
+	dagFindings := checkDAG(rs, b, nProbes, extra, st)
+	if len(findings) == 0 {
+		findings = dagFindings
+	}
 	var sample any
 	if wantSample {
 		sample = map[string]any{"default_type": rs.Default, "rules_as_written": ruleTexts(rs), "probes(first few non-trivial)": sampleProbes, "routes": targetNames(targets), "probe_count": len(names)}
@@ -756,7 +765,7 @@ func targetNames(ts []target) []string {
 
 func main() {
 	rep = evid.New("C12", "exploration")
-	rep.SetRule("case = (rule set, probe name, route); rule sets: 1-10 (sometimes up to 41) rules of the four types over the label alphabet {a b ab ba a-b xn--a com c}, derived from 1-3 pool names (itself, suffixes, +label, glued/unglued first char), random case, optional trailing dot, duplicates with other values, random default type and prefix omission; regexps from a small RE2-safe grammar; probe names = every rule +/- one label, +/- one char, one char replaced, in random case with/without trailing dot, plus random names; routes = MixMatcher.Add, its sub-matchers, standalone sub-matchers, text loader with/without values, domain_set plugin (exps+file+nested set), hosts Lookup, hosts plugin LookupMsg, redirect plugin. non-trivial = at least one rule describes the name or the name is a near miss (non-boundary suffix, parent of a rule, subdomain of a full rule, rule is a prefix); distinct = (rule set, set of matching types, deciding type, number of matching domain depths, near-miss class)")
+	rep.SetRule("case = (rule set, probe name, route); rule sets: 1-10 (sometimes up to 41) rules of the four types over the label alphabet {a b ab ba a-b xn--a com c}, derived from 1-3 pool names (itself, suffixes, +label, glued/unglued first char), random case, optional trailing dot, duplicates with other values, random default type and prefix omission; regexps from a small RE2-safe grammar; probe names = every rule +/- one label, +/- one char, one char replaced, in random case with/without trailing dot, plus random names; routes = MixMatcher.Add, its sub-matchers, standalone sub-matchers, text loader with/without values, domain_set plugin (exps+file+nested set), hosts Lookup, hosts plugin LookupMsg, redirect plugin, and per rule set one random DAG of 3-11 domain_set plugins (own exps/files or sets only, 1-8 included sets, shared included sets) built in dependency order and probed only after all are built, each against the union of its own and transitively included rules. non-trivial = at least one rule describes the name or the name is a near miss (non-boundary suffix, parent of a rule, subdomain of a full rule, rule is a prefix); distinct = (rule set, set of matching types, deciding type, number of matching domain depths, near-miss class)")
 	rep.Assume("Go's regexp package is the definition of 'match by Go regular expression' (used by the reference, on the normalised name, with the expression exactly as written)")
 	rep.Assume("generated rules and names are ASCII; lower-casing in the reference is ASCII lower-casing")
 	rep.Assume("empty patterns ('domain:.', 'keyword:.') and names with empty labels are outside the quantified space and not generated; unprefixed rules never contain ':'")
@@ -918,7 +927,8 @@ func main() {
 		"expected_decided_by_full", "expected_decided_by_domain", "expected_decided_by_regexp", "expected_decided_by_keyword",
 		"probes_with_upper_case", "probes_with_trailing_dot", "rules_with_upper_case", "rules_with_trailing_dot",
 		"rules_without_prefix(default type)", "loader_decoy_rules_in_comments",
-		"evaluations:mix", "evaluations:loader", "evaluations:domainset", "evaluations:hosts-lookup", "evaluations:hosts-msg", "evaluations:redirect",
+		"evaluations:mix", "evaluations:loader", "evaluations:domainset", "evaluations:hosts-lookup", "evaluations:hosts-msg", "evaluations:redirect", "evaluations:domainset-dag",
+		"dag_sets_included_by_several_plugins", "dag_plugins_made_of_sets_only", "dag_sets_only_plugins_listing_a_shared_set_first_then_another",
 	} {
 		if tot[need] == 0 {
 			rep.Inconclusive("monitor never observed %q", need)
